@@ -1,47 +1,50 @@
 package main
 
 import (
+	"encoding/json"
 	"fmt"
+	"math/rand"
 	"os"
 
 	. "verifharness/lib"
 )
 
 func main() {
-	bin, th, err := BuildPlugins()
-	if err != nil {
-		fmt.Println(err)
-		os.Exit(2)
-	}
-	fmt.Println("plugins", bin, th)
+	run := NewRun("SMOKE", nil)
+	run.Prepare()
 	r := OneFile("smoke", "smoke.v1", &File{
 		Enums: []*Enum{E("Status", "STATUS_UNSPECIFIED", "STATUS_ACTIVE")},
 		Messages: []*Message{
 			M("GetReq", F("user_id", 1, "string"), F("page", 2, "int32", Query("page", false))),
 			M("User", F("id", 1, "string"), F("big", 2, "int64", I64("NUMBER")), F("st", 3, "", EnumT("smoke.v1.Status")),
-				F("at", 4, "", Msg(Timestamp), TsFmt("UNIX_MILLIS")), F("tags", 5, "string", MapOf("string"))),
+				F("tags", 5, "string", MapOf("string"))),
 		},
 		Services: []*Service{Svc("Users", "/api/v1",
 			RPC("GetUser", "smoke.v1.GetReq", "smoke.v1.User", "GET", "/users/{user_id}"),
-			RPC("MakeUser", "smoke.v1.User", "smoke.v1.User", "", ""))},
+			RPC("MakeUser", "smoke.v1.User", "smoke.v1.User", "", "/make"))},
 	})
-	out := GenAll(bin, r)
-	if out.BuildErr != "" {
-		fmt.Println("builderr", out.BuildErr)
-		os.Exit(1)
+	s := NewSession(run, []*Request{r})
+	s.BuildRuntime(true)
+	for d, v := range s.Verdict {
+		fmt.Println(d, v.Build, v.Vet, v.Output)
 	}
-	fmt.Println("pb", out.PB.Exit, out.PB.Names, out.PB.Error, out.PB.Stderr)
-	for _, p := range Plugins {
-		x := out.Results[p]
-		fmt.Println(p, x.Exit, x.Names, x.Error, x.WallMs, x.MaxRSSKB, x.Stderr)
+	g := s.Gens[0]
+	vg := &ValueGen{Rng: rand.New(rand.NewSource(1))}
+	req := vg.Random(g.Built.MessageDesc("smoke.v1.GetReq"), 1.0)
+	resp := vg.Random(g.Built.MessageDesc("smoke.v1.User"), 1.0)
+	j, c := MsgCanon(req)
+	fmt.Println(j, c)
+	rh := WireHex(resp)
+	sc := map[string]any{"id": "1", "kind": "call", "pkg": "smoke", "service": "Users", "method": "GetUser", "req": WireHex(req), "script": map[string]any{"resp": rh}}
+	sc2 := map[string]any{"id": "2", "kind": "call", "pkg": "smoke", "service": "Users", "method": "MakeUser", "req": rh, "script": map[string]any{"resp": rh}, "opts": map[string]any{"ContentType": "application/x-protobuf"}}
+	obs, err := RunScenarios(s.Runner, []any{sc, sc2}, 1)
+	fmt.Println(err)
+	for _, o := range obs {
+		var v any
+		json.Unmarshal(o, &v)
+		b, _ := json.MarshalIndent(v, "", " ")
+		os.Stdout.Write(b)
+		fmt.Println()
 	}
-	if len(os.Args) > 1 {
-		for _, p := range Plugins {
-			for n, c := range out.Results[p].Files {
-				if n == os.Args[1] {
-					fmt.Println(c)
-				}
-			}
-		}
-	}
+	run.Cleanup()
 }
